@@ -378,7 +378,7 @@ def check_kernels(ctx, prog):
     ctx.extra["recorded_calls"] = len(calls)
     ctx.extra["configurations"] = notes
     nprng = np.random.default_rng(ctx.seed + 1000)
-    cases = K.select_cases(calls, nprng, per_kernel=24 if quick else 60, per_kernel_random=12 if quick else 30)
+    cases = K.select_cases(calls, nprng, per_kernel=24 if quick else 60, per_kernel_random=24 if quick else 40)
     ctx.extra["cases"] = len(cases)
 
     # ---- glue table against the recorded dtypes / ranks (static, from the AST) ----
@@ -396,7 +396,11 @@ def check_kernels(ctx, prog):
             if not metas:
                 continue
             glue_events.append(dict(kernel=kname, arg=pn, ctype=g["casts"][pn][0] if len(g["casts"][pn]) == 1 else "mixed",
-                                    dtypes=set(m["dtype"] for m in metas) | ({"non-contiguous"} if not all(m["c"] for m in metas) else set()),
+                                    # a complex128 array is, in memory, interleaved (re, im) float64 pairs: what
+                                    # a `double (*)[2]` cast expects (Gonze-Lee dd_q0 is passed without .view)
+                                    dtypes=set(("float64" if (m["dtype"] == "complex128" and g["casts"][pn] == ["float64"])
+                                                else m["dtype"]) for m in metas)
+                                    | ({"non-contiguous"} if not all(m["c"] for m in metas) else set()),
                                     maxaxis=g["axes"].get(pn, -1), minndim=min(len(m["shape"]) for m in metas)))
     ctx.extra["glue_arguments_checked"] = len(glue_events)
 
